@@ -461,7 +461,12 @@ def _feed_progs(res: C.Result, deep: bool, extra=()):
     tot = {"assign": 0, "outside": 0, "raised": 0, "via_view": 0, "ended_by_exception": 0, "max_depth": 0}
     for i, prog in enumerate(progs):
         cid = f"p{i}"
-        blk, info = VC.run_prog(cid, prog)
+        try:
+            blk, info = VC.run_prog(cid, prog)
+        except Exception as e:  # noqa: BLE001
+            _trouble(res, "corr:M4/program", f"the program could not be run on this tree ({type(e).__name__}: {e})",
+                     {"prog": _pack(prog), "protocol": []})
+            continue
         lines += blk
         meta[cid] = (prog, blk)
         for k in ("assign", "outside", "raised", "via_view"):
@@ -482,8 +487,16 @@ def _feed_progs(res: C.Result, deep: bool, extra=()):
         for v in r["props"].get(PROP, []):
             if v.startswith("fail"):
                 res.failures.append(C.Failure(clause=v[5:].split(" ")[0], case=rc, detail=v[5:]))
-    if progs:
+    if progs and ("p%d" % (len(progs) // 3)) in meta:
         res.sample({"protocol": [l if len(l) < 300 else l[:300] + "..." for l in meta["p%d" % (len(progs) // 3)][1]]})
+
+
+def _trouble(res: C.Result, name: str, what: str, case: Dict[str, Any]):
+    """the code under test raised where the unchanged code never does (reading a field, creating a message, resolving a
+    nested struct): a correspondence difference with the case as replay - never a crash of the harness"""
+    n = res.extra["harness_trouble"] = res.extra.get("harness_trouble", 0) + 1
+    if n <= 20:
+        res.corr_diffs.append({"name": name, "diff": what[:400], "case": case})
 
 
 def _pack(case: Dict[str, Any]) -> Dict[str, Any]:
@@ -500,6 +513,10 @@ def _feed(res: C.Result, cases: List[Dict[str, Any]], start: int):
             blk, info = VC.run_case(cid, case)
         except KeyError:
             continue  # no donor for this array shape
+        except Exception as e:  # noqa: BLE001
+            _trouble(res, "corr:M4/setField", f"the case could not be set up on this tree ({type(e).__name__}: {e})",
+                     {"case": _pack(case), "protocol": []})
+            continue
         lines += blk
         meta[cid] = (case, blk, info)
     out = C.parse_driver(C.run_driver("validators", lines))
@@ -551,7 +568,12 @@ def _feed_ctx(res: C.Result, deep: bool, extra=()):
     for i, evs in enumerate(hs):
         cid = f"x{i}"
         info: Dict[str, Any] = {}
-        blk = VC.run_ctx(cid, evs, info)
+        try:
+            blk = VC.run_ctx(cid, evs, info)
+        except Exception as e:  # noqa: BLE001
+            _trouble(res, "corr:M4/disable_message_validation",
+                     f"the history could not be run on this tree ({type(e).__name__}: {e})", {"ctx": evs, "protocol": []})
+            continue
         lines += blk
         meta[cid] = (evs, blk)
         for t in info.get("manager_raised", [])[:1]:
@@ -571,7 +593,7 @@ def _feed_ctx(res: C.Result, deep: bool, extra=()):
         for v in r["props"].get(PROP, []):
             if v.startswith("fail"):
                 res.failures.append(C.Failure(clause=v[5:], case=rc, detail=f"{v[5:]}: events {evs} flags {blk[2]}"))
-    if hs:
+    if hs and ("x%d" % (len(hs) // 2)) in meta:
         res.sample({"protocol": meta["x%d" % (len(hs) // 2)][1]})
 
 
@@ -592,6 +614,12 @@ def _corpus():
 
 
 def run(res: C.Result, deep: bool):
+    try:
+        VC.world().load_core()
+    except Exception as e:  # noqa: BLE001  (class creation runs the descriptors' __init__ / __set_name__ and the metaclass)
+        res.broken.append(f"tie:M4: the message classes the harness assigns to cannot be created on this tree "
+                          f"({type(e).__name__}: {e})"[:300])
+        return
     ccases, cctx, cprogs = _corpus()
     res.extra["corpus_cases"] = len(ccases) + len(cctx) + len(cprogs)
     cases = ccases + gen_cases(res.seed, deep)
@@ -644,10 +672,13 @@ def thread_probe() -> List[Dict[str, Any]]:
                              ("logger_status", "one"), ("pid", 1.5)):
             try:
                 setattr(m, field, value)
-                bad.append({"thread": who, "field": f"MDF_CONNECT_V2.{field}", "value": repr(value)[:20],
-                            "stored": repr(getattr(m, field))[:20]})
             except Exception:  # noqa: BLE001  refused: what the property demands
-                pass
+                continue
+            try:
+                stored = repr(getattr(m, field))[:20]
+            except Exception as e:  # noqa: BLE001
+                stored = f"<reading it raises {type(e).__name__}>"
+            bad.append({"thread": who, "field": f"MDF_CONNECT_V2.{field}", "value": repr(value)[:20], "stored": stored})
     t = threading.Thread(target=holder, daemon=True)
     t.start()
     if not inside.wait(10):
